@@ -322,7 +322,23 @@ func runCodec(c CodecCase, rec *h.Rec) error {
 			rec.Class("result=rejected-with-error")
 			return nil
 		}
-		if ctA.Degree() != ctB.Degree() || ctA.Level() != ctB.Level() {
+		// a reused receiver of larger degree may keep its degree if the additional terms are zero (same ciphertext value)
+		zeroTail := ctA.Degree() > ctB.Degree()
+		if zeroTail {
+			for _, pol := range ctA.Value[ctB.Degree()+1:] {
+				for _, limb := range pol.Coeffs {
+					for _, v := range limb {
+						if v != 0 {
+							zeroTail = false
+						}
+					}
+				}
+			}
+		}
+		if zeroTail {
+			rec.Class("result=zero-padded-to-receiver-degree")
+		}
+		if (ctA.Degree() != ctB.Degree() && !zeroTail) || ctA.Level() != ctB.Level() {
 			return fail("C09:"+keyName+":"+cause+":wrong-shape", "%s into a reused ciphertext (degree %d level %d) returns degree %d level %d; with a fresh output degree %d level %d", opName, c.Out.Deg, clampLevel(e.maxLevel, c.Out.Drop), ctA.Degree(), ctA.Level(), ctB.Degree(), ctB.Level())
 		}
 		if ma, mb := metaString(ctA.MetaData, false), metaString(ctB.MetaData, false); ma != mb {
